@@ -131,6 +131,8 @@ class _Session:
         self.coros = []             # dicts
         self.armed = None
         self.stranded = set()       # worlds whose release was interrupted
+        self.release_cut = set()    # ... for certain (seen by the harness)
+        self.releasing = None
         self.in_toggle = False
         self.fault = None
         self.done = False
@@ -322,7 +324,11 @@ class _Session:
                     finally:
                         i += n
                         self.in_toggle = False
-                        world.dispatch_enabled = True
+                        self.releasing = world.uid
+                        try:
+                            world.dispatch_enabled = True
+                        finally:
+                            self.releasing = None
                     continue
                 self.act(world, a)
         finally:
@@ -464,6 +470,10 @@ class _Session:
             # stays queued, so "last callback == attachment" is not judged
             # for this world any more
             self.stranded.add(world.uid)
+            if self.releasing == world.uid:
+                # ... and this one certainly does: the world stays enabled
+                # with callbacks still queued
+                self.release_cut.add(world.uid)
         if kind == 'spawn':
             world.create_entity(self.new_comp(0, world))
         elif kind in ('delete_other', 'delete_other_imm'):
@@ -624,7 +634,7 @@ class _Session:
                 self.fail('C02', 'callbacks-not-alternating', f'component '
                           f'{uid} ({type(c).__name__}) got on_add/on_remove '
                           f'out of turn ({when})', 'add, remove, add, ...',
-                          seq)
+                          seq, release_cut=w.uid in self.release_cut)
                 return
             reg = w.is_handler(c)
             if reg != (uid in attached):
